@@ -75,8 +75,13 @@ def counter_histories(run, n):
                 ext = prf_ext_ga(first=b"\x07" * 32) if rng.random() < 0.3 else None
                 ops.append({"op": "get_assertion", "req": ga_req(rng, allow=[bytes.fromhex(c["cred_id"])], uv=rng.random() < 0.5, ext=ext)})
         script = [rng.choice([{"presence": True, "verification": True}] * 8 + [{"presence": False, "verification": False}]) for _ in ops]
+        # every fourth history: the store refuses one call (any lookup, save or counter update of the history) with some status;
+        # "equal to the value then held in the store" must survive a refused write
+        faults = None
+        if i % 4 == 3:
+            faults = [{"at": rng.randrange(0, 2 * len(ops)), "code": rng.choice([0x01, 0x28, 0x2E, 0x7F, 0xF0])}]
         scs.append(scenario(store_kind=kind, content=creds, config={"counter": rng.random() < 0.7, "hmac": rng.choice([None, {"without_uv": False, "on_mc": False}])},
-                            user={"script": script}, ops=ops))
+                            user={"script": script}, ops=ops, faults=faults))
     return scs
 
 
@@ -87,7 +92,8 @@ def check(run):
         run, PROP, scenarios, [history_meta(s) for s in scenarios], ["store_ok"], py_oracle=counter_oracle,
         coq_files=["theories/Auth/Authenticator.v", "theories/Auth/StoreFacts.v", "theories/Auth/History.v"],
         rule="histories of 2-7 assertions interleaved over 1-3 credentials with and without counters, start values "
-             "{0, 1, 2^31-1, 2^31, 2^32-2, 2^32-1, none}, with and without extension requests, some failing assertions and registrations; "
+             "{0, 1, 2^31-1, 2^31, 2^32-2, 2^32-1, none}, with and without extension requests, some failing assertions and registrations, "
+             "every fourth history with one store call refused (fault injection at a random call index, 5 status codes); "
              "run on the release AND the debug (overflow-checking) build of the implementation")
     # the same scenarios on the overflow-checking profile
     dbg = common.harness_build("ceremony", profile="debug")
